@@ -190,6 +190,12 @@ func serveOne(ln net.Listener, p hsPlan, out chan<- hsServerResult) {
 		return
 	}
 	if p.CloseAt >= 0 && p.CloseAt < res.respLen {
+		// the server ends its side in the middle of the response (an orderly FIN); it keeps its socket so that the test
+		// can see whether the client lets go of the connection too
+		if tc, ok := c.(*net.TCPConn); ok && p.CloseAt%2 == 0 {
+			_ = tc.CloseWrite()
+			return
+		}
 		_ = c.Close()
 		res.conn = nil
 		return
@@ -329,7 +335,7 @@ func readClientFrames(c net.Conn, n int) ([]rfc6455.Frame, error) {
 
 func TestC18_Handshake(t *testing.T) {
 	rec := evid.For("C18")
-	rec.SetRule("rapid: 1..3 handshakes on one Stream against a raw TCP server in the harness; response = status {101 (two reason phrases), 200, 400, 426} x Upgrade {websocket in 3 spellings, missing, h2c, near misses: websockets, websocket2, xwebsocket, websocke, WebSocket-Draft76} x Sec-WebSocket-Accept {right, wrong, missing, near misses: letter case swapped, one letter's case flipped, truncated, padding removed} x header-name case x separator after the colon {' ', '', two spaces, tab, trailing space} x header order permutation x extra headers (incl. a 700..9000-byte cookie: heads larger than the client's initial 1 KiB buffer) x piggy-backed frames {none, 1..3 complete messages, last one cut after 1..6 bytes} x segmentation (1..3 cuts, 3 ms apart) x server close at byte j; blocking and asynchronous handshake; between handshakes the previous session may leave a queued Close(1002); oracle: request well-formed with a fresh 16-byte key and exactly the caller's headers of this handshake (none of an earlier one); success iff (101 and Upgrade: websocket and correct accept and response fully sent); failure => error, State()==Terminated and the server sees the client's end of the connection (not half-open); after success the messages read are exactly the piggy-backed ones followed by the later ones, and the first two frames the server receives are exactly the two the new session wrote; non-trivial = conforming response that is segmented or varied in case/whitespace with >=1 piggy-backed frame, or a second handshake on the same stream; distinct = hash of the plans")
+	rec.SetRule("rapid: 1..3 handshakes on one Stream against a raw TCP server in the harness; response = status {101 (two reason phrases), 200, 400, 426} x Upgrade {websocket in 3 spellings, missing, h2c, near misses: websockets, websocket2, xwebsocket, websocke, WebSocket-Draft76} x Sec-WebSocket-Accept {right, wrong, missing, near misses: letter case swapped, one letter's case flipped, truncated, padding removed} x header-name case x separator after the colon {' ', '', two spaces, tab, trailing space} x header order permutation x extra headers (incl. a 700..9000-byte cookie: heads larger than the client's initial 1 KiB buffer) x piggy-backed frames {none, 1..3 complete messages, last one cut after 1..6 bytes} x segmentation (1..3 cuts, 3 ms apart) x server ending the connection at byte j (full close, or only its own direction while it keeps watching the client's); blocking and asynchronous handshake; between handshakes the previous session may leave a queued Close(1002); oracle: request well-formed with a fresh 16-byte key and exactly the caller's headers of this handshake (none of an earlier one); success iff (101 and Upgrade: websocket and correct accept and response fully sent); failure => error, State()==Terminated and the server sees the client's end of the connection (not half-open); after success the messages read are exactly the piggy-backed ones followed by the later ones, and the first two frames the server receives are exactly the two the new session wrote; non-trivial = conforming response that is segmented or varied in case/whitespace with >=1 piggy-backed frame, or a second handshake on the same stream; distinct = hash of the plans")
 	segKnown := known.Listed("C18", "response-single-read")
 	vt.Check(t, 400, func(rt *rapid.T) {
 		ln, err := net.Listen("tcp", "127.0.0.1:0")
@@ -439,11 +445,12 @@ func TestC18_Handshake(t *testing.T) {
 				}
 				// not half-open: the client has let go of the connection, the server sees its end (FIN or RST)
 				if sr.conn != nil {
-					_ = sr.conn.SetReadDeadline(time.Now().Add(3 * time.Second))
+					_ = sr.conn.SetReadDeadline(time.Now().Add(vt.Patience(3 * time.Second)))
 					tmp := make([]byte, 4096)
 					for {
 						if _, err := sr.conn.Read(tmp); err != nil {
 							if ne, ok := err.(net.Error); ok && ne.Timeout() {
+								vt.TimedOut()
 								closeServer()
 								_ = s.CloseNextLayer()
 								rt.Fatalf("handshake #%d failed (%v) and the stream reports terminated, but 3 s later the client still holds its connection open (half-open); plan=%s", round, herr, desc[len(desc)-1])
